@@ -29,6 +29,6 @@ Proof. intros. destruct (gen_method_wiring t k m) as (_ & _ & _ & _ & _ & A & B 
 Print Assumptions C01_receiver.
 
 Example C01_example :
-  let t := mkt true [mkm RRef IDefault QResUnitErr 2 [(ASlice, 0); (AStr, 0)]; mkm ROwn IDefault QPrim 3 []] in
+  let t := mkt true [mkm RRef IDefault QResUnitErr 2 [(ASlice, 0); (AStr, 0)] false; mkm ROwn IDefault QPrim 3 [] false] in
   dispatch (gen_trait t) (t_methods t) 0 [RvSlice 4096 3; RvStr 8192 5] = Some (0%nat, [RvSlice 4096 3; RvStr 8192 5]).
 Proof. reflexivity. Qed.
